@@ -24,6 +24,51 @@ prop("C04", "exhaustive enumeration of complete ADF families; counting-guided se
      "Same families (thorough adds all 24M ADFs of F(4,2), where the search branches three deep); heuristics a and b on native, hybrid(+/-) and bridged objects, also b after a on one object; verdict kinds missing / invented / duplicate.",
      ORACLE, "DESIGN.md 4 C04")
 
+STORE = "Trusted: truth tables read from the public node table by an independent walker (adfmc/src/bddx.rs); bound: <= 3-4 variables and the stated depth; states with equal node tables are merged (justified by the memo invariant checked on every transition in C11)."
+
+prop("C05", "stateless exploration of all heuristic choice sequences (deviation-bounded DFS with replay) of the real nogood search + exhaustive families for built-ins + RNG outcome-class cover for Rand",
+     "The heuristic is the environment of the search and is explored like a scheduler: a scripted Heuristic::Custom offers (undecided statement x {T,F}); every choice sequence (all of A(1), A(2), F(3,1); all with <= 2 deviations on F(3,2) and F(4,1); thorough: all of F(3,2) and a residue class of A(3), <= 3 deviations on F(4,1), <= 1 on A(3)) is executed on a fresh object in both modes and compared with the definition; termination through the cfg(adf_obdd_verif) step budget; channel closed after return. Built-in heuristics through all three entry points on native and hybrid objects over complete families; Rand with the first seed of every RNG outcome-class prefix.",
+     ORACLE + " Termination = step budget of 20000 loop iterations (largest observed value is in the evidence). Rand is covered by outcome-class prefixes, not by all seeds.", "DESIGN.md 4 C05")
+prop("C06", "explicit-state breadth-first search over the real diagram store (state restored by history replay), invariants in every state",
+     "All operation sequences (variable, not, and/or/imp/iff/xor over all handle pairs, restrict, re-import through node list and through serde+fix_import) up to depth 6 on 2 variables and depth 5 on 3 variables (thorough: 7/6 and 4 variables), from the empty store and from the stores built for every ADF of A(2) and F(3,1) (native and bridged); in every state: constants at 0/1, every node reduced, ordered and unique, all handles pairwise different functions, results are the unique handle of their function, re-imports reproduce the table.",
+     STORE, "DESIGN.md 4 C06")
+prop("C07", "explicit-state search over the real diagram store; every transition compared with the reference operation on truth tables; flat cold-cache sweep of all operand pairs",
+     "Same exploration; per transition the returned handle's truth table equals the reference operation on the operands' tables (restriction = cofactor), the node table only grows and old handles keep their function; warm and cold memo tables (every (state, operation) pair, operations re-executed from memo-warm variants). Plus all 256x256 operand pairs over 3 variables x 5 connectives, negation and all restrictions on fresh stores.",
+     STORE, "DESIGN.md 4 C07")
+prop("C08", "exhaustive enumeration of the documented language up to bounds (formulas, label spellings, layouts, fact orders) and of all single-edit mutants in the four named error categories",
+     "Accept side: every formula of depth <= 2 (thorough: <= 7 nodes), 40 formulas x all ordered pairs of 27 label spellings, x all 64 layouts, all fact orders: accepted, labels verbatim in first-declaration order, ac_at equals the expected AST, the native diagram denotes the written function. Reject side: every bracket/terminator/arity/trailing-garbage mutant of every accepted text that an independent blank-permissive recogniser rejects must give Err without panic; the CLI (3 modes) must exit non-zero with empty stdout on a slice of them.",
+     "Trusted: the formula evaluator and the independent recogniser of the documented grammar (adfmc/src/c08.rs), which is deliberately permissive so that only definitely-invalid texts are asserted. The web clause of the property is exercised in C16.", "DESIGN.md 4 C08")
+prop("C09", "per-program validation with complete enumeration of each condition's assignment space (all small programs of the families + a deterministic family of large ADFs)",
+     "Every program (all formulas of depth <= 2 as small ADFs, A(2) x all writers, F(3,2), 54 large ADFs with 12-48 statements in quick / 540 in thorough) x 3 sortings is compiled natively, bridged, and bridged after pre-grounding; each statement's stored handle is walked through the public node table for EVERY assignment of the condition's syntactic support (<= 1024) and compared with the written formula (pre-grounded: with the definitional grounded values substituted); reachable variables lie in the support; store structurally canonical.",
+     "Trusted: the formula evaluator and the large-ADF three-valued oracle (validity by enumeration of each support, adfmc/src/large.rs).", "DESIGN.md 4 C09")
+prop("C10", "metamorphic exploration: exhaustive enumeration of presentations (fact permutations x sortings x renamings x layouts) on all back-ends, answers read label by label",
+     "A(2) x all 24 fact orders x 3 sortings x 6 renamings x 2 layouts; F(3,1) x all 720 orders; F(3,2) x fixed orders; large ADFs x 14 orders x 3 sortings; native, biodivine, hybrid. Grounded and the multisets of complete / stable / two-valued models as maps label -> T/F/u equal the definition (small) or the first presentation (large); after varsort_lexi labels are byte-wise sorted and the dictionary agrees.",
+     ORACLE + " Large instances: complete models only when <= 5 statements stay undecided, stable/two-valued when <= 9.", "DESIGN.md 4 C10")
+prop("C11", "explicit-state search over the store with a memo-table audit on every transition + enumeration of ALL public call sequences up to length 3 on one Adf object, each replayed twice",
+     "Store: every ite/restrict memo entry, variable list and cached count is recomputed from the node table on every transition of the breadth-first search (depth 6 / 5; a second search keyed by node table + memo tables). ADF objects: for every ADF of A(2) and F(3,1), every sequence over a 15-call alphabet (all semantics, counting, nogood search with four heuristics incl. seeded Rand, formula building, restriction) up to length 3 (bridged: 2; thorough 4/3): last answer = fresh object's answer, earlier answers still read the same, memo tables right, and a second run on a fresh object reproduces raw answers and node table.",
+     STORE + " Model lists are compared with the fresh object's as multisets; order only for the determinism clause.", "DESIGN.md 4 C11")
+prop("C12", "the same exhaustive battery compiled and run under every cargo feature combination, each against the definitional oracle",
+     "The harness is built against the library under default + 4 corner feature sets (thorough: all 12); each build runs all semantics on A(2), F(3,1) and a residue class of F(3,2), every query on every node of every function of <= 3 variables (4: strided), each query also as the first query on a never-counted and a freshly restricted diagram, a store exploration with all invariants incl. serde re-import, persistence round trips and all call histories of length <= 2 on A(2). No build may deviate from the oracle; case counts must agree; the documented memoised-model-count exception is masked by name.",
+     ORACLE, "DESIGN.md 4 C12")
+prop("C13", "exhaustive enumeration of all Boolean functions of <= 4 variables + store exploration; every public query against independent recounts",
+     "All 65536 functions of 4 variables (and fewer), two writers, every node: paths, models (naive; memoised where documented), max_depth, var_dependencies vs. independent recounts; interpretations() cubes for both goals and every goal variable (disjoint, consistent, exact cover); the store exploration with the same queries in every state; impact measures, formulacounts, facet_count on the term lists of A(2) and F(3,2); more_models/minimum on [0,16]^2; adf-bdd --counter nai on A(2).",
+     "Trusted: path / depth / support recounts from the public node table (adfmc/src/bddx.rs). Cubes on non-constant diagrams only (pinned by the repository's own unit test).", "DESIGN.md 4 C13")
+prop("C14", "explicit-state: every ADF object state (input x back-end x call history up to length 2) x both round trips, answers of the re-imported object vs. definition; CLI export/import runs",
+     "Objects (native, bridged) of A(2), F(3,1) after every call sequence of length <= 2 and F(3,2) after length <= 1: serde JSON + fix_import and the string-encoded node list / ordering / roots of the web service's database layer rebuilt through Bdd::from and Adf::from: identical node table, roots, ordering; re-imported store satisfies canonicity, memo and query invariants; all semantics of the re-imported object equal the definition. CLI --export then --import with each flag on all of A(2); existing file / symlink / directory targets untouched.",
+     ORACLE, "DESIGN.md 4 C14")
+prop("C15", "exhaustive enumeration of CLI configurations (inputs x library modes x sortings x flag subsets x heuristics) on the binary built from the working tree",
+     "52k process runs (quick): A(2) x 3 modes x 3 sortings x every flag; F(3,1) x flag pairs; fixed files x all 1024 flag subsets; --heu x 4 values; malformed inputs. Exit status, line format, label set and order, grounded first, complete section, and the remaining multiset = a x stable + b x two-valued with a, b between 'flags the mode must honour' and 'flags given'.",
+     ORACLE + " Support matrix: naive must honour grd/com/stm/stmng, biodivine grd/com/stm/stmrew/stmrew2, hybrid all; other pairs may print nothing or the right section.", "DESIGN.md 4 C15")
+prop("C18", "explicit-state exploration of the real NoGoodStore: all add sequences x modes x all partial interpretations vs. brute force",
+     "Every sequence of up to 3 adds (a mode per add for length <= 2, one mode per sequence for length 3; thorough: V=4) over 3 variables; in each store conclusions() and the conclusion closure for all 3^V interpretations: concluded literals forced, conflict only if no extension avoids all added nogoods, always when the interpretation matches one, decided positions unchanged, closure is a fixpoint; pairwise NoGood operations.",
+     "Trusted: brute force over the 2^V total assignments (adfmc/src/c18.rs).", "DESIGN.md 4 C18")
+prop("C19", "controlled-scheduler exploration: every placement of receiver polls between individual node creations x every requested handle, on the real Bdd objects and channels",
+     "86 producer programs (all operation sequences of length <= 3 over 3 variables creating nodes, deduplicated, + the pinned ones) x all placements of <= 3 polls x all handles (1.1M schedules); a threaded rendezvous scheduler that blocks the real producer thread inside Bdd::node at every node (25k schedules) must observe the same outcomes as the sequential scheduler; chains producer -> relay -> end with every order of deliveries and polls. Prefix property after every poll, found iff present, never 'not found' for a delivered handle, identical tables after draining.",
+     "Trusted: crossbeam channels are FIFO; producer and receiver share nothing else, so polls between message deliveries are all receiver-visible schedules. Memory-level interleavings inside one channel operation are not modelled.", "DESIGN.md 4 C19")
+prop("C20", "exhaustive enumeration of all interpretation vectors up to length 7 (thorough 9)",
+     "All 21845 vectors over {false, true, Term(2), Term(12)} of length <= 7: both public iterators collected and compared as multisets with the 2^k completions / 3^k refinements, first three-valued item = input.",
+     "Trusted: the independent enumeration of completions/refinements (adfmc/src/c20.rs).", "DESIGN.md 4 C20")
+
 
 def main():
     checks = []
